@@ -153,7 +153,7 @@ fn run_trial(ctx: &Ctx, env: &Env, cs: u64, workers: bool) {
     let n = rng.range(2, 8);
     // worker-pool shape (eight threads blocked in recv, each stays with its request): program A
     let program_b = rng.chance(1, 2) && !workers;
-    let small_kinds = [BodyKind::None, BodyKind::None, BodyKind::Cl(1), BodyKind::Cl(1023), BodyKind::Cl(1024), BodyKind::Cl(1024)];
+    let small_kinds = [BodyKind::None, BodyKind::None, BodyKind::Cl(0), BodyKind::Cl(1), BodyKind::Cl(1023), BodyKind::Cl(1024), BodyKind::Cl(1024)];
     let large_kinds = [BodyKind::Cl(1025), BodyKind::Cl(20000), BodyKind::Chunked(3000), BodyKind::Chunked(10)];
     let mut kinds: Vec<BodyKind> = (0..n).map(|_| rng.pick(&small_kinds).clone()).collect();
     if program_b {
